@@ -2,6 +2,7 @@ CONSTANTS
   DEV_QuoteFlagsBeforeEmit = TRUE
   DEV_GluedAfterAccepted = TRUE
   DEV_RestrictedNeedsValidBody = FALSE
+  DEV_DelCredEmptyListIsNil = TRUE
 INIT Init
 NEXT Next
 CHECK_DEADLOCK FALSE
